@@ -178,6 +178,9 @@ def scenarios(pid, tier, seed):
         n_t, n_r = (150, 250) if tier == "quick" else (3000, 5000)
     for sc in dyn_gen.targeted(pid, rng, n_t):
         out.append(("targeted", sc))
+    if tier == "thorough":
+        for sc in dyn_gen.exhaustive_small(rng, budget=12000 if pid == "C06" else 60000):
+            out.append(("exhaustive", sc))
     for i in range(n_r):
         adm = rng.random() < 0.85
         out.append(("random", dyn_gen.gen_tree(rng, depth=rng.choice([1, 2, 2, 3]), admissible=adm or pid == "C03")))
